@@ -33,7 +33,8 @@ PiecesFrom(nm, p, InCls(_), acc) ==
            q == IF stop = {} THEN Len(nm) ELSE Min(stop) - 1
        IN PiecesFrom(nm, q + 1, InCls, Append(acc, [run |-> c, s |-> SubSeq(nm, p, q)]))
 Pieces(nm, InCls(_)) == PiecesFrom(nm, 1, InCls, <<>>)
-DecValue(ds) == FoldLeft(LAMBDA a, c : 10 * a + DVal(c), 0, ds)
+\* a decimal run as a number of any size: its digits without leading zeros (TLC's integers end at 2^31; names may hold 20-digit numbers)
+Strip(ds) == LET nz == {k \in 1..Len(ds) : ds[k] # "0"} IN IF nz = {} THEN <<"0">> ELSE SubSeq(ds, Min(nz), Len(ds))
 
 \* coarse skeleton: every maximal run over [IVX0-9] becomes one wildcard (any sane key is injective on sets whose
 \* skeletons are pairwise distinct)
@@ -41,7 +42,7 @@ Coarse(c) == c \in Digits \cup {"I", "V", "X"}
 Skel(nm) == LET ps == Pieces(nm, Coarse) IN [k \in 1..Len(ps) |-> IF ps[k].run THEN <<"*">> ELSE ps[k].s]
 \* leading-zero normal form: every maximal decimal run replaced by its value
 \* (the value is kept as a string, so that sequences of pieces can be compared with each other without mixing integers and strings)
-ZeroNorm(nm) == LET ps == Pieces(nm, IsDigit) IN [k \in 1..Len(ps) |-> IF ps[k].run THEN <<"#", ToString(DecValue(ps[k].s))>> ELSE ps[k].s]
+ZeroNorm(nm) == LET ps == Pieces(nm, IsDigit) IN [k \in 1..Len(ps) |-> IF ps[k].run THEN <<"#">> \o Strip(ps[k].s) ELSE ps[k].s]
 NoNumeralLetters(nm) == \A k \in 1..Len(nm) : nm[k] \notin {"I", "V", "X"}
 
 \* a set of names on which the statement fixes the output order up to leading zeros
@@ -49,7 +50,7 @@ SafePair(a, b) == Skel(a) # Skel(b) \/ (NoNumeralLetters(a) /\ NoNumeralLetters(
 SafeSet(names) == \A i, j \in 1..Len(names) : i < j => SafePair(names[i], names[j])
 
 \* ------------------------------------------------------------------ implementation-shaped key
-Txt(s) == [n |-> 0, v |-> 0, s |-> s]
+Txt(s) == [n |-> 0, v |-> <<>>, s |-> s]
 Num(v) == [n |-> 1, v |-> v, s |-> <<>>]
 IRun(nm, p) == LET stop == {q \in p..Len(nm) : nm[q] # "I"}  e == IF stop = {} THEN Len(nm) ELSE Min(stop) - 1
                IN IF e - p + 1 > 3 THEN 3 ELSE e - p + 1
@@ -57,16 +58,18 @@ DRunEnd(nm, p) == LET stop == {q \in p..Len(nm) : ~IsDigit(nm[q])} IN IF stop = 
 RECURSIVE Scan(_, _, _, _)
 Scan(nm, p, cur, acc) ==
   IF p > Len(nm) THEN Append(acc, Txt(cur))
-  ELSE IF nm[p] = "I" /\ p < Len(nm) /\ nm[p + 1] = "V" THEN Scan(nm, p + 2, <<>>, acc \o <<Txt(cur), Num(4)>>)
-  ELSE IF nm[p] = "I" THEN Scan(nm, p + IRun(nm, p), <<>>, acc \o <<Txt(cur), Num(IRun(nm, p))>>)
-  ELSE IF IsDigit(nm[p]) THEN Scan(nm, DRunEnd(nm, p) + 1, <<>>, acc \o <<Txt(cur), Num(DecValue(SubSeq(nm, p, DRunEnd(nm, p))))>>)
+  ELSE IF nm[p] = "I" /\ p < Len(nm) /\ nm[p + 1] = "V" THEN Scan(nm, p + 2, <<>>, acc \o <<Txt(cur), Num(<<"4">>)>>)
+  ELSE IF nm[p] = "I" THEN Scan(nm, p + IRun(nm, p), <<>>, acc \o <<Txt(cur), Num(<<ToString(IRun(nm, p))>>)>>)
+  ELSE IF IsDigit(nm[p]) THEN Scan(nm, DRunEnd(nm, p) + 1, <<>>, acc \o <<Txt(cur), Num(Strip(SubSeq(nm, p, DRunEnd(nm, p))))>>)
   ELSE Scan(nm, p + 1, Append(cur, nm[p]), acc)
 Tokens(nm) == Scan(nm, 1, <<>>, <<>>)
 
 TextCmp(a, b) == LET n == IF Len(a) < Len(b) THEN Len(a) ELSE Len(b)
                      d == {k \in 1..n : a[k] # b[k]}
                  IN IF d = {} THEN Sign(Len(a) - Len(b)) ELSE Sign(Code(a[Min(d)]) - Code(b[Min(d)]))
-TokCmp(x, y) == IF x.n = 1 THEN Sign(x.v - y.v) ELSE TextCmp(x.s, y.s)
+\* numbers: more digits = larger; equally many digits: the first different digit decides
+NumCmp(a, b) == IF Len(a) # Len(b) THEN Sign(Len(a) - Len(b)) ELSE TextCmp(a, b)
+TokCmp(x, y) == IF x.n = 1 THEN NumCmp(x.v, y.v) ELSE TextCmp(x.s, y.s)
 KeyCmp(a, b) == LET ka == Tokens(a)  kb == Tokens(b)
                     n == IF Len(ka) < Len(kb) THEN Len(ka) ELSE Len(kb)
                     d == {k \in 1..n : TokCmp(ka[k], kb[k]) # 0}
